@@ -138,7 +138,7 @@ cvars == <<mods, items, ci, fn, cn, co, owed, phase>>
 
 NoCur == [kind |-> "", vals |-> <<>>]
 NoFn == [name |-> ""]
-NoInsn == [op |-> "", grp |-> "", sig |-> <<>>, ops |-> <<>>, proto |-> "", fp |-> 0]
+NoInsn == [op |-> "", grp |-> "", sig |-> <<>>, ops |-> <<>>, proto |-> "", fp |-> 0, trail |-> FALSE]
 NoOp == [form |-> "", vals |-> <<>>]
 
 ItemName(it) == it.name
@@ -146,6 +146,22 @@ DefKinds == {"func", "proto", "import", "data", "bss", "ref", "lref", "expr"}
 Named(k) == {items[i].name : i \in {j \in 1..Len(items) : items[j].k \in k}} \ {""}
 AllNames == Named(DefKinds \cup {"export", "forward"}) \cup {owed[i].name : i \in 1..Len(owed)}
 Fresh == ItemPool[CHOOSE i \in 1..Len(ItemPool) : ItemPool[i] \notin AllNames /\ \A j \in 1..(i - 1) : ItemPool[j] \in AllNames]
+(* temporary item names: ".lc<N>" is what _MIR_get_temp_item_name hands out (c2m uses them for string literals, the     *)
+(* simplifier for string / floating point operands when a module is loaded).  A module carries the counter tmp = the   *)
+(* largest N in use; every reader has to restore it, or the next load creates an item that exists already.             *)
+TempPool == <<".lc1", ".lc2", ".lc3", ".lc4", ".lc5", ".lc6">>
+NTemp(its) == Cardinality({k \in 1..Len(TempPool) : \E i \in 1..Len(its) : its[i].name = TempPool[k]})
+(* "entropy": a data item of N pseudo-random elements: its binary form has no repeated 4-byte sequence to speak of, so the  *)
+(* compression layer has to carry it as literal runs of the maximal length (2047 bytes) and around it                      *)
+EntTypes == IF Grid = "full" THEN {"u8", "i64", "u64", "d"} ELSE {"i64"}
+EntropyN(t) == IF Grid # "full" THEN {260} ELSE IF t = "u8" THEN {2030, 2040, 2046, 2047, 2048, 2049, 2056, 4100} ELSE {230, 256, 300}
+ESq(i, p) == ((i % p) * (i % p)) % p
+R16(j) == ((5 * ESq(j, 46337)) + (3 * ESq(j, 46327)) + ESq(j, 40009)) % 65536
+EntEl(t, n, i) ==
+  LET j == (4 * i) + (7 * n) IN
+  CASE t = "u8" -> <<R16(j) % 128>>                                                   \* one byte per token
+    [] t = "d" -> <<R16(j), R16(j + 1), R16(j + 2), 16384 + (R16(j + 3) % 16000)>>      \* finite doubles
+    [] OTHER -> <<R16(j), R16(j + 1), R16(j + 2), 32768 + (R16(j + 3) % 32768)>>        \* high bit set: 8-byte tokens
 HaveFresh == \E i \in 1..Len(ItemPool) : ItemPool[i] \notin AllNames
 Declared == Named({"export", "forward"}) \ Named(DefKinds)          \* declared, not defined yet
 Funcs == {items[i] : i \in {j \in 1..Len(items) : items[j].k = "func"}}
@@ -201,7 +217,7 @@ ItemHole(kind, v) ==
     [] kind = "proto" -> SigHole(v)
     [] kind = "bss" -> IF n = 0 THEN "named" ELSE IF n = 1 THEN "len" ELSE ""
     [] kind = "data" -> IF n = 0 THEN "named" ELSE IF n = 1 THEN "dtype" ELSE IF n = 2 THEN "via" ELSE IF n = 3 THEN "nel"
-                        ELSE IF n < 4 + v[4] THEN "el" ELSE ""
+                        ELSE IF n < 4 + v[4] /\ v[3] # "entropy" THEN "el" ELSE ""
     [] kind = "ref" -> IF n = 0 THEN "named" ELSE IF n = 1 THEN "target" ELSE IF n = 2 THEN "sdisp" ELSE ""
     [] kind = "lref" -> IF n = 0 THEN "named" ELSE IF n = 1 THEN "lfunc" ELSE IF n = 2 THEN "l1" ELSE IF n = 3 THEN "l2" ELSE IF n = 4 THEN "sdisp" ELSE ""
     [] kind = "expr" -> IF n = 0 THEN "named" ELSE IF n = 1 THEN "efunc" ELSE ""
@@ -224,11 +240,11 @@ ItemDom(kind, h, v) ==
     [] h = "atype" -> (IF Fixed /\ kind = "func" THEN (IF Len(v) = 3 + v[2] THEN {"i64"} ELSE {"d"}) ELSE TSel(ArgTypes))
     [] h = "bsize" -> SizeG
     [] h = "va" -> (IF kind = "func" /\ (v[3 + v[2]] = 0 \/ Fixed) THEN {FALSE} ELSE BOOLEAN)    \* a vararg function needs a fixed argument
-    [] h = "named" -> BOOLEAN
+    [] h = "named" -> {"anon", "name"} \cup (IF NTemp(items) < Len(TempPool) THEN {"temp"} ELSE {})
     [] h = "len" -> LenG
     [] h = "dtype" -> TSel(ScalarTypes)
-    [] h = "via" -> (IF v[2] = "u8" THEN {"data", "string"} ELSE {"data"})
-    [] h = "nel" -> 0..MaxEl
+    [] h = "via" -> (IF v[2] = "u8" THEN {"data", "string"} ELSE {"data"}) \cup (IF v[2] \in EntTypes THEN {"entropy"} ELSE {})
+    [] h = "nel" -> (IF v[3] = "entropy" THEN EntropyN(v[2]) ELSE 0..MaxEl)
     [] h = "el" -> ElG(v[2])
     [] h = "target" -> RefTargets
     [] h = "sdisp" -> DispG
@@ -242,12 +258,13 @@ ItemDom(kind, h, v) ==
     [] h = "nlab" -> (IF Fixed THEN {1} ELSE IF Len(owed) > 0 THEN owed[1].nl..2 ELSE 0..2)
     [] h = "style" -> (IF v[2] = 0 THEN {"ret", "jret"} ELSE {"ret"})
 
-NameOrAnon(b) == IF b THEN Fresh ELSE ""
+NameOrAnon(x) == CASE x = "anon" -> "" [] x = "name" -> Fresh [] x = "temp" -> TempPool[NTemp(items) + 1]
 MkItem(kind, v) ==
   CASE kind \in {"import", "export", "forward"} -> [k |-> kind, name |-> v[1]]
     [] kind = "proto" -> [k |-> "proto", name |-> v[1], va |-> v[SigEnd(v)], res |-> SigRes(v), args |-> SigArgs(v)]
     [] kind = "bss" -> [k |-> "bss", name |-> NameOrAnon(v[1]), len |-> v[2]]
-    [] kind = "data" -> [k |-> "data", name |-> NameOrAnon(v[1]), t |-> v[2], via |-> v[3], els |-> [i \in 1..v[4] |-> v[4 + i]]]
+    [] kind = "data" -> [k |-> "data", name |-> NameOrAnon(v[1]), t |-> v[2], via |-> v[3],
+                         els |-> (IF v[3] = "entropy" THEN [i \in 1..v[4] |-> EntEl(v[2], v[4], i)] ELSE [i \in 1..v[4] |-> v[4 + i]])]
     [] kind = "ref" -> [k |-> "ref", name |-> NameOrAnon(v[1]), ref |-> v[2], disp |-> v[3]]
     [] kind = "lref" -> [k |-> "lref", name |-> NameOrAnon(v[1]), l1 |-> <<v[2], v[3]>>, l2 |-> (IF v[4] = 0 THEN <<>> ELSE <<v[2], v[4]>>), disp |-> v[5]]
     [] kind = "expr" -> [k |-> "expr", name |-> NameOrAnon(v[1]), func |-> v[2]]
@@ -434,19 +451,22 @@ CloseInsn ==
 (* closing a function: labels not placed yet, then the final return (ret with one operand per result / jret) *)
 FinalPending == fn.placed < fn.nlab
 StartFinal ==
-  /\ InFunc /\ cn.op = "" /\ cn.grp = "" /\ ~FinalPending /\ fn.free >= MinInsns
-  /\ cn' = [NoInsn EXCEPT !.grp = "final", !.op = fn.style, !.sig = (IF fn.style = "ret" THEN RetSig ELSE <<I("i")>>)]
+  /\ InFunc /\ cn.op = "" /\ cn.grp = "" /\ fn.free >= MinInsns
+  \* the last label may also come after the final return: a function may end with a label
+  /\ \E tr \in BOOLEAN : /\ (IF tr THEN fn.placed + 1 = fn.nlab ELSE ~FinalPending)
+                         /\ cn' = [NoInsn EXCEPT !.grp = "final", !.op = fn.style, !.trail = tr, !.sig = (IF fn.style = "ret" THEN RetSig ELSE <<I("i")>>)]
   /\ UNCHANGED <<mods, items, ci, fn, co, owed, phase>>
 CloseFunc ==
   /\ InFunc /\ cn.grp = "final" /\ Len(cn.ops) = Len(cn.sig) /\ co.form = ""
   /\ items' = Append(items, [k |-> "func", name |-> fn.name, va |-> fn.va, res |-> fn.res, args |-> fn.args, locals |-> fn.locals,
-                             globals |-> fn.globals, insns |-> Append(fn.insns, [op |-> cn.op, ops |-> cn.ops])])
+                             globals |-> fn.globals,
+                             insns |-> Append(fn.insns, [op |-> cn.op, ops |-> cn.ops]) \o (IF cn.trail THEN <<[op |-> "label", n |-> fn.nlab]>> ELSE <<>>)])
   /\ fn' = NoFn /\ cn' = NoInsn
   /\ UNCHANGED <<mods, ci, co, owed, phase>>
 
 CloseModule ==
   /\ phase = "mod" /\ ~InFunc /\ ci.kind = "" /\ Len(owed) = 0 /\ Len(items) >= MinItems + Len(Items0)
-  /\ mods' = Append(mods, [name |-> ModNames[Len(mods) + 1], items |-> items])
+  /\ mods' = Append(mods, [name |-> ModNames[Len(mods) + 1], items |-> items, tmp |-> NTemp(items)])
   /\ items' = Items0
   /\ phase' = (IF Len(mods) + 1 >= MaxMods THEN "done" ELSE "mod")
   /\ UNCHANGED <<ci, fn, cn, co, owed>>
@@ -488,7 +508,7 @@ BigEl(t, pat, i) ==
     [] t = "ld" -> <<BigVal(pat, i), BigVal(pat, i + 1), 0, 32768 + BigVal(pat, i + 2), 16383>>
 BigModule(j) ==
   LET n == atoi(IOEnv["C11_BIGN" \o ToString(j)])  pat == EnvOr("C11_BIGP" \o ToString(j), "rand")  t == EnvOr("C11_BIGT" \o ToString(j), "u8") IN
-  <<[name |-> "big", items |-> <<[k |-> "import", name |-> "a"],
+  <<[name |-> "big", tmp |-> 0, items |-> <<[k |-> "import", name |-> "a"],
                                  [k |-> "data", name |-> "b1", t |-> t, via |-> "data", els |-> [i \in 1..n |-> BigEl(t, pat, i)]],
                                  [k |-> "bss", name |-> "", len |-> W(8)]>>]>>
 BigInit == /\ \E j \in BigIdx : mods = BigModule(j)
